@@ -662,8 +662,15 @@ theorem denC_exprs (c : Counter) (items : List CItem) : (denC c items).exprs = [
 theorem denC_incl (c : Counter) (items : List CItem) : (denC c items).incl = [] :=
   clean_incl_nil _ rfl
 
+/-- every key of every dict level of the data is an exact comment placeholder or contains none (`C08.PhWFEs`; wrapped
+    so that the unifier does not unfold it) -/
+@[irreducible] def DataOK (sd : SD) : Prop := C08.PhWFEs sd.data
+
+theorem DataOK.phWF {sd : SD} (h : DataOK sd) : C08.PhWFEs sd.data := by unfold DataOK at h; exact h
+
 theorem denC_phWF {items : List CItem} {c : Counter} (hwf : CSrcWFItems 1 items = true) (hc : V c)
-    (hb : C08.nBlockI items ≤ 1000000) : C08.PhWFEs (denC c items).data := by
+    (hb : C08.nBlockI items ≤ 1000000) : DataOK (denC c items) := by
+  unfold DataOK
   rw [denC_raw]
   have h : C08.PhWFEs (rawC c items).data :=
     C08.phWF_labelI items 1 { counter := c } [] hwf hc (by simpa using hb) (by simp only [C08.PhWFEs])
@@ -774,8 +781,9 @@ theorem postRead_commented {ev : Str → EvalResult} {o : ReadOpts} (ho : Commen
   | false =>
     simp [C01.evalExpressions_noexpr ev _ he, Except.bind, ho.scope, ho.order]
 
-theorem afterParse_ren {f : Nat → Nat} (hf : C08.RenOK f) (o : ReadOpts) (sd : SD) (hw : C08.PhWFEs sd.data) :
+theorem afterParse_ren {f : Nat → Nat} (hf : C08.RenOK f) (o : ReadOpts) (sd : SD) (hw' : DataOK sd) :
     afterParse o (C08.renSD f id sd) = C08.renSD f id (afterParse o sd) := by
+  have hw := hw'.phWF
   unfold afterParse
   cases o.includes with
   | true =>
@@ -825,7 +833,8 @@ theorem probe_commented_canon (ev : Str → EvalResult) {w₁ w₂ : World} {p :
     rw [h1, h2]
     have e1 : denC w₂.c items = C08.renSD (C08.shift w₁.c w₂.c) id (denC w₁.c items) :=
       (C08.denC_natural hdoc.wf hc₁ hc₂ hdoc.blocks).2.2
-    have e2 := afterParse_ren (C08.shift_ok w₁.c w₂.c) o (denC w₁.c items) (denC_phWF hdoc.wf hc₁ hdoc.blocks)
+    have hw := denC_phWF (items := items) (c := w₁.c) hdoc.wf hc₁ hdoc.blocks
+    have e2 := afterParse_ren (C08.shift_ok w₁.c w₂.c) o (denC w₁.c items) hw
     have e3 := C08.canonSD_ren' (C08.shift_ok w₁.c w₂.c) C08.renOK_id (afterParse o (denC w₁.c items))
     show ApiOut.data (C08.canonSD _) = ApiOut.data (C08.canonSD _)
     rw [e1, e2, e3]
@@ -1026,6 +1035,89 @@ theorem ex_plain_probe (o : ReadOpts) :
 example : ((apiRun evalInt exWorld (exOps ++ [.read exA {}])).2.map outData).getLast? = some (some C02.exData) ∧
     (apiRun evalInt { fs := exWorld.fs, c := none } [.read exA {}]).2.map outData = [some C02.exData] := by
   decide +kernel
+
+/-- `C08_history_commented` instantiated: the probe of `doc` (default options) after the history … -/
+theorem ex_commented_probe :
+    (apiRun evalInt exWorld (exOps ++ [.read exB {}])).2.map canonOut =
+      (apiRun evalInt exWorld exOps).2.map canonOut ++
+        (apiRun evalInt { fs := exWorld.fs, c := none } [.read exB {}]).2.map canonOut :=
+  C08_history_commented evalInt exOps exWorld exB {} ⟨rfl, rfl, rfl⟩ exCommentedDoc exB_file C08.ex_valid exOps_frame_B
+
+/-- … evaluated without the theorem: after the history (counter at 8) the line comments carry the ids 9, 10, 11, in the
+    fresh world 0, 1, 2 — different data, equal canonical forms -/
+example :
+    ((apiRun evalInt exWorld (exOps ++ [.read exB {}])).2.map outLineC).getLast? =
+      some [(9, "// first".toList), (10, "// tail 'q' ; { $x".toList), (11, "// nested".toList)] ∧
+    (apiRun evalInt { fs := exWorld.fs, c := none } [.read exB {}]).2.map outLineC =
+      [[(0, "// first".toList), (1, "// tail 'q' ; { $x".toList), (2, "// nested".toList)]] ∧
+    ((apiRun evalInt exWorld (exOps ++ [.read exB {}])).2.map outData).getLast? ≠
+      ((apiRun evalInt { fs := exWorld.fs, c := none } [.read exB {}]).2.map outData).getLast? ∧
+    ((apiRun evalInt exWorld (exOps ++ [.read exB {}])).2.map (fun o => outData (canonOut o))).getLast? =
+      ((apiRun evalInt { fs := exWorld.fs, c := none } [.read exB {}]).2.map (fun o => outData (canonOut o))).getLast? := by
+  decide +kernel
+
+/-- the probe itself across the wrap-around: `doc` read at 999998 draws the ids 999999, 0, 1 -/
+example :
+    (apiRun evalInt exWorld [.read exB {}]).2.map outLineC =
+      [[(999999, "// first".toList), (0, "// tail 'q' ; { $x".toList), (1, "// nested".toList)]] ∧
+    (apiRun evalInt exWorld [.read exB {}]).2.map (fun o => outLineC (canonOut o)) =
+      (apiRun evalInt { fs := exWorld.fs, c := none } [.read exB {}]).2.map (fun o => outLineC (canonOut o)) := by
+  decide +kernel
+
+/-! ### `C08_write_bytes_history` on the example -/
+
+example : writeBytes exOut false (.plain [(.str "k".toList, .leaf (.int 5))]) =
+    some "k                   5;\n".toList := by decide +kernel
+
+example : (apiRun evalInt exWorld (exOps ++ [.write (.plain [(.str "k".toList, .leaf (.int 5))]) exA ['w'] false])).1.fs.get
+      (resolveSpelled exA) = some (.native "k                   5;\n".toList) :=
+  (C08_write_bytes_history evalInt exOps exWorld _ exA ['w'] false (by decide) (by decide +kernel)).1
+
+/-! ### `order=True` is excluded for a reason: the statement without `o.order = false` is false -/
+
+/-- `// x`, `a 1;`, `// y` -/
+def exODoc : List CItem := [.lineC " x".toList, .entry ['a'] (.lit (.bare ['1'])), .lineC " y".toList]
+def exOGaps : List Str := [[' '], ['\n'], [' '], [], [' ']]
+def exOText : Str := " // x\na 1; // y\n".toList
+def exO : Comps := ["w".toList, "o".toList]
+def exOWorld : World := { fs := [(exO, .native exOText)], c := some 999998 }
+
+theorem exOToks : ctoksItems exODoc =
+    [.lineC " x".toList, .tok (.word ['a']), .tok (.word ['1']), .tok (.word [';']), .lineC " y".toList] := by
+  simp [exODoc, ctoksItems, Lit.tok]
+
+theorem exOCommentedDoc : CommentedDoc exODoc exOGaps ['\n'] :=
+  ⟨by decide +kernel, by rw [exOToks]; decide +kernel, fun h => (by cases h), by decide +kernel, by decide +kernel,
+    by decide +kernel⟩
+
+theorem exO_file : exOWorld.fs.get (resolveSpelled exO) =
+    some (.native (spreadC (ctoksItems exODoc) exOGaps ['\n'])) := by
+  have : spreadC (ctoksItems exODoc) exOGaps ['\n'] = exOText := by rw [exOToks]; decide +kernel
+  rw [this]; rfl
+
+/-- **refutation.**  `C08_history_commented` with `order=True`: the file `" // x\na 1; // y\n"`, the counter at 999998,
+    the empty history.  The two line comments get the ids 999999 and 0; `order=True` sorts the table by id, so `// y`
+    comes first, while from the fresh counter (ids 0, 1) `// x` comes first: the canonical forms differ (finding D18, here
+    at the level of the API). -/
+theorem order_refutes :
+    ¬ ∀ (ops : List ApiOp) (w : World) (p : Comps) (o : ReadOpts) (items : List CItem) (gaps : List Str) (tail : Str),
+      o.comments = true → o.scope = [] → CommentedDoc items gaps tail →
+      w.fs.get (resolveSpelled p) = some (.native (spreadC (ctoksItems items) gaps tail)) →
+      C13.ValidCounter Gen.counterLimit w.c → (∀ op ∈ ops, op.target ≠ some (resolveSpelled p)) →
+      (apiRun evalInt w (ops ++ [.read p o])).2.map canonOut =
+        (apiRun evalInt w ops).2.map canonOut ++ (apiRun evalInt { fs := w.fs, c := none } [.read p o]).2.map canonOut := by
+  intro h
+  have := h [] exOWorld exO { order := true } exODoc exOGaps ['\n'] rfl rfl exOCommentedDoc exO_file C08.ex_valid
+    (fun _ hop => nomatch hop)
+  have := congrArg (fun l => l.map outLineC) this
+  revert this
+  decide +kernel
+
+/-- the two tables of the refutation, evaluated -/
+example :
+    (apiRun evalInt exOWorld [.read exO { order := true }]).2.map outLineC = [[(0, "// y".toList), (999999, "// x".toList)]] ∧
+    (apiRun evalInt { fs := exOWorld.fs, c := none } [.read exO { order := true }]).2.map outLineC =
+      [[(0, "// x".toList), (1, "// y".toList)]] := by decide +kernel
 
 end C08api
 end DictIO
